@@ -313,6 +313,34 @@ end
 def Xml.anyDescendant (t : Str) : Xml → Bool
   | .node _ cs => Xml.anyTagL t cs
 
+/-! ### Elements as ElementTree shows them (tag, attributes, text, children)
+
+The detectors look at element TAGS only.  Everything else an `encryption.xml` / `manifest.xml` carries — the
+`Algorithm` of an `EncryptionMethod`, key information, cipher references, checksum / key-derivation attributes, the
+order and number of entries — is content of `XmlA` that `skeleton` forgets; the attributed variants of the detectors are
+DEFINED through the skeleton, and the correspondence feeds them the attributed trees of generated packages in which
+exactly that content varies. -/
+inductive XmlA where
+  | node (tag : Str) (attrs : List (Str × Str)) (text : Str) (children : List XmlA)
+  deriving Repr
+
+mutual
+def XmlA.skeleton : XmlA → Xml
+  | .node tag _ _ cs => .node tag (XmlA.skeletonL cs)
+def XmlA.skeletonL : List XmlA → List Xml
+  | [] => []
+  | c :: r => XmlA.skeleton c :: XmlA.skeletonL r
+end
+
+mutual
+/-- every attribute value of the element and its descendants, document order -/
+def XmlA.attrValues (name : Str) : XmlA → List Str
+  | .node _ attrs _ cs => (attrs.filter (fun a => a.1 == name)).map (·.2) ++ XmlA.attrValuesL name cs
+def XmlA.attrValuesL (name : Str) : List XmlA → List Str
+  | [] => []
+  | c :: r => XmlA.attrValues name c ++ XmlA.attrValuesL name r
+end
+
 /-- `pat in s` -/
 def containsSub (pat : Str) : Str → Bool
   | [] => pat.isEmpty
@@ -349,6 +377,14 @@ def isEpubEncrypted (C : Consts) (i : EpubInput) : Bool :=
      | some t => t.anyDescendant C.epubEncTag
      | none => false))
   || i.names.contains C.epubRightsPath
+
+/-- `_is_epub_encrypted` on the attributed tree of encryption.xml -/
+def isEpubEncryptedA (C : Consts) (names : List Str) (enc : Option XmlA) : Bool :=
+  isEpubEncrypted C ⟨names, enc.map XmlA.skeleton⟩
+
+/-- `is_odf_encrypted` on the attributed tree of the manifest -/
+def isOdfEncryptedA (C : Consts) (isZip : Bool) (manifest : Option (Str × Option XmlA)) : Bool :=
+  isOdfEncrypted C ⟨isZip, manifest.map (fun m => (m.1, m.2.map XmlA.skeleton))⟩
 
 /-! ## PDF -/
 
